@@ -130,6 +130,10 @@ func rulesC02(w *World, o *Out) {
 				continue
 			}
 			op, ratio, ok := rel.Canon("power", "total")
+			if ok && !rel.FloorExact() {
+				detail = "a truncating division makes the comparison differ from the exact ratio"
+				continue
+			}
 			if !ok {
 				detail = "comparison not between summed voter power and total power: " + rel.L.String() + " vs " + rel.R.String()
 				continue
